@@ -66,6 +66,9 @@ func ParsePPSNALUnit(data []byte, spsMap map[uint32]*SPS) (*PPS, error) {
 	pps.EntropyCodingModeFlag = reader.ReadFlag()
 	pps.BottomFieldPicOrderInFramePresentFlag = reader.ReadFlag()
 	pps.NumSliceGroupsMinus1 = reader.ReadExpGolomb()
+	if pps.NumSliceGroupsMinus1 > 7 {
+		return nil, fmt.Errorf("num_slice_groups_minus1 %d is not in range 0 to 7", pps.NumSliceGroupsMinus1)
+	}
 
 	if pps.NumSliceGroupsMinus1 > 0 {
 		pps.SliceGroupMapType = reader.ReadExpGolomb()
